@@ -96,8 +96,25 @@ def const_val(x):
     return Val(ast.Constant(value=x), const=x)
 
 
+class EnumConst:
+    """member of a private Enum class of the package, as a constant: two of them are the same object iff class and name agree"""
+    __slots__ = ('cls', 'name')
+
+    def __init__(self, cls, name):
+        self.cls, self.name = cls, name
+
+    def __eq__(self, other):
+        return isinstance(other, EnumConst) and (self.cls, self.name) == (other.cls, other.name)
+
+    def __hash__(self):
+        return hash((self.cls, self.name))
+
+    def __repr__(self):
+        return '%s.%s' % (self.cls, self.name)
+
+
 class Event:
-    __slots__ = ('kind', 'callee', 'attr', 'recv', 'args', 'kw', 'node', 'fn', 'facts', 'value', 'target', 'depth', 'result', 'in_loop')
+    __slots__ = ('kind', 'callee', 'attr', 'recv', 'args', 'kw', 'node', 'fn', 'facts', 'value', 'target', 'depth', 'result', 'in_loop', 'heap')
 
     def __init__(self, kind, **kw):
         self.kind = kind
@@ -107,6 +124,7 @@ class Event:
         self.facts = ()
         self.depth = 0
         self.in_loop = False
+        self.heap = None     # attributes of the local objects among the arguments, as they were when the call was made
         for k, v in kw.items():
             setattr(self, k, v)
 
@@ -602,7 +620,7 @@ class Tracer:
             if f not in p.facts:
                 p.facts.append(f)
 
-    def trace_closure(self, val, fi=None):
+    def trace_closure(self, val, fi=None, heap=None):
         """paths of a local function / lambda / private module function held in a value (its free variables keep
         the values they had where the closure was created; parameters are symbolic)"""
         if val.closure is None:
@@ -610,11 +628,17 @@ class Tracer:
         t, cenv = val.closure
         p = Path()
         p.env = dict(cenv or {})
+        if heap:
+            p.heap = {k_: dict(v_) for k_, v_ in heap.items() if v_ is not None}      # attributes of the local objects the function value refers to
         a = t.node.args
         for x in a.posonlyargs + a.args + a.kwonlyargs:
             p.env[x.arg] = Val(ast.Name(id=x.arg, ctx=ast.Load()), tags={'param:%s' % x.arg})
+        pre = list(val.partial[0]) if val.partial is not None else []
+        if val.bound and pre:
+            p.env[t.params()[0]] = pre[0]      # the receiver of a bound method value / callable object
+            pre = pre[1:]
         if val.partial is not None:
-            for n_, v_ in zip(callback_params(t), val.partial[0]):
+            for n_, v_ in zip(callback_params(t), pre):
                 p.env[n_] = v_
             for k_, v_ in val.partial[1].items():
                 p.env[k_] = v_
@@ -634,8 +658,8 @@ class Tracer:
                 q.status = 'return'
                 q.ret = const_val(None)
                 q.events.append(Event('return', value=q.ret, fn=t.qualname, facts=tuple(q.facts)))
-        if val.partial is not None and (val.partial[0] or val.partial[1]):
-            return _PartialView(t, len(val.partial[0]), val.partial[1]), paths
+        if val.partial is not None and (pre or val.partial[1]):
+            return _PartialView(t, len(pre), val.partial[1]), paths
         return t, paths
 
     # ------------------------------------------------------------------------------------------
@@ -752,6 +776,10 @@ class Tracer:
                     continue
                 v = Val(ast.Attribute(value=b.ast, attr=e.attr, ctx=ast.Load()), tags=b.tags)
                 v.recv = b
+                if isinstance(b.ast, ast.Name) and b.ast.id in self.repo.classes and b.ast.id not in q.env:
+                    ci_ = self.repo.classes[b.ast.id]
+                    if e.attr in ci_.attrs and any(x.split('.')[-1] in ('Enum', 'IntEnum', 'StrEnum', 'Flag', 'IntFlag') for x in ci_.base_exprs):
+                        v.const = EnumConst(ci_.name, e.attr)
                 if not store and isinstance(b.ast, ast.Name) and b.ast.id == 'self' and fi.cls is not None:
                     # a bound method of the same class used as a value (callback): can be inlined / traced when it is called
                     t = self.repo.resolve(fi.cls.name, e.attr)
@@ -876,6 +904,8 @@ class Tracer:
                 val = Val(ast.Compare(left=acc[0].ast, ops=e.ops, comparators=[x.ast for x in acc[1:]]), tags=frozenset().union(*[x.tags for x in acc]))
                 if len(acc) == 2 and isinstance(e.ops[0], (ast.Is, ast.IsNot)) and ((acc[0].const is None and _never_none(acc[1])) or (acc[1].const is None and _never_none(acc[0]))):
                     val.const = isinstance(e.ops[0], ast.IsNot)      # arithmetic / comparison results, displays, f-strings are never None
+                elif len(acc) == 2 and isinstance(e.ops[0], (ast.Is, ast.IsNot, ast.Eq, ast.NotEq)) and isinstance(acc[0].const, EnumConst) and isinstance(acc[1].const, EnumConst):
+                    val.const = (acc[0].const == acc[1].const) == isinstance(e.ops[0], (ast.Is, ast.Eq))
                 elif len(acc) == 2 and isinstance(e.ops[0], (ast.Is, ast.IsNot)) and acc[0].const is not NOCONST and acc[1].const is not NOCONST \
                         and (acc[0].const is None or acc[1].const is None or isinstance(acc[0].const, bool)):
                     same = acc[0].const is acc[1].const
@@ -963,18 +993,29 @@ class Tracer:
                     return None
             post = self.repo.resolve(ci.name, '__post_init__')
             if post is None:
+                self._callable_object(ov, ci)
                 return [(p, ov)]
             init, iargs, ikw = post, [], {}
         else:
             init, iargs, ikw = self.repo.resolve(ci.name, '__init__'), list(args), dict(kw)
             if init is None:
+                self._callable_object(ov, ci)
                 return [(p, ov)] if not args and not kw else None
         if depth >= self.max_depth + 2 or init.qualname in self._stack:
             return None
+        self._callable_object(ov, ci)
         outs = []
         for r, _ in self._inline(e, p, fi, depth, init, 1, None, [ov] + iargs, ikw, None):
             outs.append((r, ov))
         return outs
+
+    def _callable_object(self, ov, ci):
+        """an instance of a helper class with __call__ is a function value: calling it runs __call__ with the instance as receiver"""
+        call = self.repo.resolve(ci.name, '__call__')
+        if call is not None:
+            ov.closure = (call, None)
+            ov.partial = ([ov], {})
+            ov.bound = True
 
     def _module_table(self, module, name):
         """value of a module-level dict display that is bound once (a dispatch table): keys and values evaluated in module scope"""
@@ -1356,6 +1397,8 @@ class Tracer:
         ev = Event('call', callee=callee, attr=attr, recv=recv, args=list(args), kw=dict(kw), node=e, fn=fi.qualname,
                    facts=tuple(p.facts), depth=depth, result=res, in_loop=p.loop > 0)
         p.events.append(ev)
+        if p.heap and any(a_.obj is not None for a_ in list(args) + list(kw.values())):
+            ev.heap = {k_: dict(v_) for k_, v_ in p.heap.items() if v_ is not None}
         if fv is not None and fv.recv is not None and p.heap and attr in ('append', 'extend', 'insert', 'add', 'update', 'setdefault', 'pop', 'popitem', 'remove', 'discard', 'clear', 'sort', 'reverse', '__setitem__', '__delitem__'):
             # a container held in an attribute of a local object is changed in place: what the attribute holds is no longer the value it was given
             for oid_, attrs_ in p.heap.items():
